@@ -83,9 +83,20 @@ def run(res, tier, seed):
     build_rva()
     n = 400 if tier == "quick" else 8000
     srcs = [restrict(hostile(rng)) for _ in range(n)] + [c for c in CORPUS if "jal t0,B" not in c]
+    # Inputs on which the liveness iteration *as documented* has no reachable fixed point are the
+    # recorded findings F-12 / F-31 (their witnesses are replayed separately at the end). The Lean
+    # model of the algorithm decides membership: it exhausts its sweep bound (100 * (n + 2) sweeps)
+    # in the liveness pass for one of the two successor orders. Such inputs are not judged here; a
+    # hang the model does not reproduce is a violation.
+    mreqs = [pipe_req("facts", [("m.s", s)]) for s in srcs]
+    ma = run_lines_isolated(DRIVER, mreqs, timeout=120, chunk=100)
+    md = run_lines_isolated(DRIVER, [r + " desc" for r in mreqs], timeout=120, chunk=100)
+    diverges = [any(l.startswith("CFGERR HANG liveness") for l in a + b) for a, b in zip(ma, md)]
+    skipped = sum(diverges)
+    srcs = [s for s, d in zip(srcs, diverges) if not d]
     first = None
     stats = {"inputs": len(srcs), "library_runs": 0, "cli_runs": 0, "include_graphs": 0, "big_inputs": 0,
-             "panics": 0, "hangs": 0}
+             "panics": 0, "hangs": 0, "not_judged_liveness_divergence_class_F12_F31": skipped}
     reqs = [pipe_req("parse,run", [("m.s", s)]) for s in srcs]
     for binary, prof in ((RVH_DEBUG, "debug"), (RVH_RELEASE, "release")):
         out = run_lines_isolated(binary, reqs, timeout=10, chunk=100)
